@@ -152,7 +152,7 @@ func run04(cfg xplore.Config, ch vrt.Chooser, trace bool) (xplore.Outcome, *vrt.
 				st.cancel()
 			})
 		}
-		vrt.Idle()
+		settle()
 		// ---- phase 1: the system stopped changing
 		for i, ok := range w.wdone {
 			if !ok {
